@@ -3,7 +3,7 @@
 for K in "$@"; do (
   S=/tmp/lane$K
   git -C $S/repo checkout -q -- . ; git -C $S/repo clean -fdq; git -C $S/repo checkout -q --detach $(git -C /repo rev-parse HEAD)
-  cd $S/verif && git checkout -q -- . && git clean -fdq -e lean/.lake -e .work -e seeded && git pull -q origin main 2>/dev/null || git pull -q
+  cd $S/verif && git checkout -q -- . && git clean -fdq -e lean/.lake -e .work && git pull -q origin main 2>/dev/null || git pull -q
   rsync -a /verif/lean/.lake $S/verif/lean/
   VERIF_REPO=$S/repo ./setup.sh > $S/setup.log 2>&1; echo "lane$K $(git -C $S/verif log --oneline | head -1 | cut -c1-60) :: $(tail -1 $S/setup.log)"
 ) & done; wait
